@@ -229,13 +229,23 @@ def resolve_closure_calls(facts, body, rounds=4):
     return body, total
 
 
+def known_default_types():
+    """Types of the reference tree that derive Default (none: kept as a function so the reference decomposition stays
+    untouched if one is ever added to pk/known_fns.txt)."""
+    return ()
+
+
 def normalise(facts, known):
     """Inline every call to a crate-local plain function that the reference tree does not have (see module doc).
     Bodies of such helpers that cannot be reached from outside the crate are taken out of facts.bodies (kept in
     facts.helpers); their closures stay and are reported by facts.closures_of(caller)."""
     def is_helper(b):
-        if b is None or b.is_closure or b.derived:
+        if b is None or b.is_closure:
             return False
+        if b.derived:
+            # `#[derive(Default)]` on a workspace struct is a constructor like any hand-written `new()`
+            return b.fn_name == 'default' and (b.impl_trait or '').endswith('Default') and \
+                facts.norm(b.impl_self_adt or '') not in known_default_types()
         # a method of a trait impl the reference tree does not have (e.g. `impl From<Option<f64>> for NewEnum`) is a helper too
         # wherever the call resolves to it statically
         if b.raw.get('def_kind') not in ('Fn', 'AssocFn'):
